@@ -73,7 +73,7 @@ func C08Worker(args []string) int {
 	K, _ := strconv.Atoi(args[2])
 	B, _ := strconv.Atoi(args[3])
 	cfg := explore.Config{World: w, Bounds: explore.Bounds{T: T, K: K, B: B}, Dedupe: true, Workers: 2, Opts: explore.Opts{NoDisk: true},
-		MenuFilter: func(depth int, prefix []int, item int) bool { return w.Menu[item].Replay == 0 },
+		MenuFilter: func(depth int, prefix []int, item int) bool { return w.Menu[item].Replay == 0 && !w.Menu[item].StealSig },
 		OnTransition: func(t *explore.Transition, newState bool) []explore.Violation {
 			mu.Lock()
 			lines = append(lines, c08Line(t.Cur))
